@@ -358,7 +358,7 @@ func cmdCheck(args []string) int {
 	// contract-level claimed obligations that are no longer generated mean that the claimed
 	// statement is no longer checked: report (safety obligations may legitimately disappear)
 	for _, c := range missingClaims {
-		if strings.Contains(c, "#post:") || strings.Contains(c, "#inv:") || strings.Contains(c, "#pre:") {
+		if strings.Contains(c, "#post:") {
 			o := oblRes{name: c, base: c, fn: strings.SplitN(c, "#", 2)[0], status: "not generated", kind: "missing"}
 			report(o, "claimed contract obligation is no longer generated from the code")
 		}
